@@ -18,9 +18,15 @@ type vfile struct {
 	volatile []*Term
 }
 
+type vhandle struct {
+	f    *vfile // the file object: stays readable after the name is removed (POSIX unlink)
+	path string
+	off  int
+}
+
 type vfs struct {
 	files map[string]*vfile
-	open  map[*Value]string // *os.File cell -> path
+	open  map[*Value]*vhandle // *os.File cell -> open file
 	ops   []string
 }
 
@@ -28,12 +34,41 @@ func (m *Machine) vfs() *vfs {
 	if f, ok := m.side["vfs"]; ok {
 		return f.(*vfs)
 	}
-	f := &vfs{files: map[string]*vfile{}, open: map[*Value]string{}}
+	f := &vfs{files: map[string]*vfile{}, open: map[*Value]*vhandle{}}
 	m.side["vfs"] = f
 	return f
 }
 
 func (m *Machine) osErr(msg string) Value { return m.newError(msg) }
+
+// fileInfo builds an *os.fileStat whose size field is n.
+func (m *Machine) fileInfo(n int) Value {
+	osp := m.P.Pkgs["os"]
+	tn := osp.Type("fileStat")
+	if tn == nil {
+		m.unsupported("os.fileStat not found")
+	}
+	t := tn.Object().Type()
+	st := t.Underlying().(*types.Struct)
+	v := m.zero(t).(Struct)
+	for i := 0; i < st.NumFields(); i++ {
+		if st.Field(i).Name() == "size" {
+			v[i] = m.tb.Const(64, uint64(n))
+		}
+	}
+	var cell Value = v
+	return Iface{T: types.NewPointer(t), V: &cell}
+}
+
+// eofError returns the io.EOF singleton.
+func (m *Machine) eofError() Value {
+	iop := m.P.Pkgs["io"]
+	if iop == nil {
+		m.unsupported("io package not loaded")
+	}
+	g := iop.Var("EOF")
+	return *m.global(g)
+}
 
 func registerOSIntrinsics(P *Program) {
 	in := P.intrinsics
@@ -64,8 +99,11 @@ func registerOSIntrinsics(P *Program) {
 		osp := m.P.Pkgs["os"]
 		var cell Value = m.zero(osp.Type("File").Object().Type())
 		p := &cell
-		fs.open[p] = path
+		fs.open[p] = &vhandle{f: f, path: path}
 		return Tuple{p, Iface{}}
+	}
+	in["os.Open"] = func(fr *frame, args []Value) Value {
+		return in["os.OpenFile"](fr, []Value{args[0], fr.m.tb.Const(64, 0), fr.m.tb.Const(32, 0)})
 	}
 	in["os.Create"] = func(fr *frame, args []Value) Value {
 		return in["os.OpenFile"](fr, []Value{args[0], fr.m.tb.Const(64, 0x241), fr.m.tb.Const(32, 0o666)})
@@ -73,11 +111,53 @@ func registerOSIntrinsics(P *Program) {
 	fileOf := func(m *Machine, v Value) *vfile {
 		p := m.derefPtr(v)
 		fs := m.vfs()
-		path, ok := fs.open[p]
+		h, ok := fs.open[p]
 		if !ok {
 			m.unsupported("operation on unknown *os.File")
 		}
-		return fs.files[path]
+		return h.f
+	}
+	in["(*os.File).Read"] = func(fr *frame, args []Value) Value {
+		m := fr.m
+		p := m.derefPtr(args[0])
+		h, ok := m.vfs().open[p]
+		if !ok {
+			m.unsupported("read on unknown *os.File")
+		}
+		buf := args[1].([]Value)
+		if h.off >= len(h.f.volatile) {
+			if len(buf) == 0 {
+				return Tuple{m.tb.Const(64, 0), Iface{}}
+			}
+			return Tuple{m.tb.Const(64, 0), m.eofError()}
+		}
+		n := 0
+		for n < len(buf) && h.off < len(h.f.volatile) {
+			buf[n] = h.f.volatile[h.off]
+			n++
+			h.off++
+		}
+		return Tuple{m.tb.Const(64, uint64(n)), Iface{}}
+	}
+	in["os.Truncate"] = func(fr *frame, args []Value) Value {
+		m := fr.m
+		path := m.concStr(args[0], "truncate path")
+		size := int(m.concInt(args[1], "truncate size"))
+		f := m.vfs().files[path]
+		if f == nil || !f.exists {
+			return m.osErr("truncate " + path + ": no such file or directory")
+		}
+		if size < len(f.volatile) {
+			f.volatile = f.volatile[:size]
+		}
+		for len(f.volatile) < size {
+			f.volatile = append(f.volatile, m.tb.Const(8, 0))
+		}
+		if size < len(f.durable) {
+			f.durable = f.durable[:size]
+		}
+		m.vfs().ops = append(m.vfs().ops, fmt.Sprintf("truncate(%d)", size))
+		return Iface{}
 	}
 	in["(*os.File).Write"] = func(fr *frame, args []Value) Value {
 		m := fr.m
@@ -120,9 +200,9 @@ func registerOSIntrinsics(P *Program) {
 		}
 		fs.files[to] = f
 		delete(fs.files, from)
-		for p, pth := range fs.open {
-			if pth == from {
-				fs.open[p] = to
+		for _, h := range fs.open {
+			if h.path == from {
+				h.path = to
 			}
 		}
 		fs.ops = append(fs.ops, "rename")
@@ -138,8 +218,8 @@ func registerOSIntrinsics(P *Program) {
 		delete(fs.files, path)
 		return Iface{}
 	}
-	// os.Stat / os.Lstat: only existence is modelled (the FileInfo of an existing file is nil;
-	// a target that inspects it is outside the model). os.IsNotExist recognises the model's
+	// os.Stat / os.Lstat: existence and size are modelled (the FileInfo is an *os.fileStat with
+	// only its size field set). os.IsNotExist recognises the model's
 	// "no such file" errors.
 	stat := func(fr *frame, args []Value) Value {
 		m := fr.m
@@ -148,7 +228,7 @@ func registerOSIntrinsics(P *Program) {
 		if f == nil || !f.exists {
 			return Tuple{Iface{}, m.osErr("stat " + path + ": no such file or directory")}
 		}
-		return Tuple{Iface{}, Iface{}}
+		return Tuple{m.fileInfo(len(f.volatile)), Iface{}}
 	}
 	in["os.Stat"] = stat
 	in["os.Lstat"] = stat
